@@ -650,3 +650,71 @@ pub fn extended_structures(cfg: &CfgSpec) -> Vec<Structure> {
     add("refund11", vec![bs(St::Pending, &[], 0, 1)], many, true);
     v
 }
+
+
+/// Systematically generated structures: every batch shape of up to three batches (no packets) and every set of up to
+/// two tracked transfers (one simple batch shape). Thorough tier: all of them for the base configuration; quick: a seed-dependent handful.
+pub fn generated_structures(cfg: &CfgSpec) -> Vec<Structure> {
+    use PacketLifecycleStatus::*;
+    let mut v = vec![];
+    let subsets: [&[usize]; 4] = [&[], &[0], &[1], &[0, 1]];
+    // batch shapes
+    let mut shapes: Vec<Vec<BatchSpec>> = vec![];
+    for reqs in subsets {
+        for due in [-1i64, 0, 1] {
+            shapes.push(vec![bs(St::Pending, reqs, 0, due)]);
+        }
+    }
+    let olds: Vec<BatchSpec> = {
+        let mut o = vec![];
+        for reqs in subsets {
+            for due in [0i64, 1] {
+                if !reqs.is_empty() {
+                    o.push(bs(St::Submitted, reqs, 0, due));
+                }
+            }
+            for w in [0u64, 1] {
+                if !reqs.is_empty() || w > 0 {
+                    o.push(bs(St::Received, reqs, w, 0));
+                }
+            }
+        }
+        o
+    };
+    for o in &olds {
+        for preqs in [&[][..], &[0][..]] {
+            for due in [0i64, 1] {
+                shapes.push(vec![o.clone(), bs(St::Pending, preqs, 0, due)]);
+            }
+        }
+    }
+    for (i, o1) in olds.iter().enumerate() {
+        for (j, o2) in olds.iter().enumerate() {
+            if (i + 2 * j) % 5 == 0 {
+                shapes.push(vec![o1.clone(), o2.clone(), bs(St::Pending, &[1], 0, 0)]);
+            }
+        }
+    }
+    for (k, sh) in shapes.into_iter().enumerate() {
+        v.push(Structure { name: format!("{}/gen-b{k}", cfg.name()), cfg: cfg.clone(), batches: sh, packets: vec![], nonempty_pool: true });
+    }
+    // packet sets
+    let mut kinds = vec![];
+    for d in [PDenom::Native, PDenom::Lst] {
+        for r in [PRecv::Staker, PRecv::N1] {
+            for st in [Sent, AckFailure, TimedOut] {
+                kinds.push((d.clone(), r.clone(), st));
+            }
+        }
+    }
+    let mut k = 0;
+    for (i, a) in kinds.iter().enumerate() {
+        v.push(Structure { name: format!("{}/gen-p{k}", cfg.name()), cfg: cfg.clone(), batches: vec![bs(St::Pending, &[0], 0, 0)], packets: vec![ps(3, a.0.clone(), a.1.clone(), a.2.clone())], nonempty_pool: true });
+        k += 1;
+        for b in kinds.iter().skip(i) {
+            v.push(Structure { name: format!("{}/gen-p{k}", cfg.name()), cfg: cfg.clone(), batches: vec![bs(St::Pending, &[0], 0, 0)], packets: vec![ps(3, a.0.clone(), a.1.clone(), a.2.clone()), ps(5, b.0.clone(), b.1.clone(), b.2.clone())], nonempty_pool: true });
+            k += 1;
+        }
+    }
+    v
+}
